@@ -108,6 +108,49 @@ func c12Pipes(c *EnumCtx) {
 			}()
 		}
 	}
+	// frame level: the receiver learns the pipe from the frame, also at the documented maximum length
+	for _, spec := range protoSpecs() {
+		if spec.msgFramed {
+			continue
+		}
+		for _, n := range []int{0, 1, 2, 3, 17, 128, 254, 255} {
+			for _, kind := range []string{"m", "g", "gm"} {
+				if !c.Mine() {
+					continue
+				}
+				var pp []byte
+				for i := 0; i < n; i++ {
+					pp = append(pp, kind[i%len(kind)])
+				}
+				if kind != "m" && n > 17 {
+					continue // long gzip chains only inflate
+				}
+				m := mmsg{Seq: 3, Mtype: 1, Method: "/a", Codec: 'j', Body: []byte(`{"k":"` + string(bytes.Repeat([]byte("v"), 64)) + `"}`), Pipe: pp}
+				// a second frame behind it must still be decodable (frame sync)
+				rw := &memRW{}
+				p := spec.pf(rw)
+				name := fmt.Sprintf("%s frame with pipe %q x %d", spec.name, kind, n)
+				c.Case(fmt.Sprintf("frame-pipe-len%d", n), name)
+				if err := p.Pack(build(m)); err != nil {
+					c.Fail(spec.name+": packing a frame with a registered pipe fails", name, err.Error())
+					continue
+				}
+				p.Pack(build(mmsg{Seq: 4, Mtype: 1, Method: "/b", Codec: 'j', Body: []byte(`"s"`)}))
+				rd := spec.pf(&memRW{r: bytes.NewReader(rw.w.Bytes())})
+				for k, want := range []mmsg{m, {Seq: 4, Mtype: 1, Method: "/b", Codec: 'j', Body: []byte(`"s"`)}} {
+					in := socket.NewMessage(socket.WithNewBody(func(socket.Header) interface{} { return new([]byte) }))
+					if err := rd.Unpack(in); err != nil {
+						c.Fail(spec.name+": a frame sent through a registered pipe cannot be unpacked", fmt.Sprintf("%s (frame %d)", name, k), err.Error())
+						break
+					}
+					if d := sameMsg(expectOf(want), extract(in)); d != "" {
+						c.Fail(spec.name+": a frame sent through a registered pipe is unpacked differently: "+fieldOf(d), fmt.Sprintf("%s (frame %d)", name, k), d)
+						break
+					}
+				}
+			}
+		}
+	}
 	// too long / unregistered
 	if c.Mine() {
 		p := xfer.NewXferPipe()
